@@ -69,6 +69,12 @@ const char *KSI_getHashAlgorithmName(KSI_HashAlgorithm id) { return "alg"; }
 int g_ser_calls;                     /* KSI_TlvTemplate_serializeObject */
 const void *g_ser_obj[2]; unsigned g_ser_tag[2]; const KSI_TlvTemplate *g_ser_tmpl[2]; int g_ser_res[2];
 unsigned char *g_ser_buf[2]; size_t g_ser_len[2];
+#ifndef C06_SER_MAX
+#define C06_SHADOW 1
+#else
+#define C06_SHADOW C06_SER_MAX
+#endif
+unsigned char g_ser_shadow[2][C06_SHADOW];   /* copy of the serialized bytes (bounded v1 job only) */
 int g_hl_calls; int g_hl_alg; unsigned g_hl;      /* KSI_getHashLength: arbitrary but fixed value g_hl */
 int g_mac_calls;                     /* KSI_HMAC_create */
 KSI_CTX *g_mac_ctx; int g_mac_alg; const char *g_mac_key; const unsigned char *g_mac_data; size_t g_mac_len;
@@ -106,7 +112,9 @@ unsigned int KSI_getHashLength(KSI_HashAlgorithm algo_id) {
 int KSI_HMAC_create(KSI_CTX *ctx, KSI_HashAlgorithm algo_id, const char *key, const unsigned char *data, size_t data_len, KSI_DataHash **hmac) {
 	g_mac_calls++;
 	g_mac_ctx = ctx; g_mac_alg = algo_id; g_mac_key = key; g_mac_data = data; g_mac_len = data_len;
-	if (g_mac_wit < data_len && __CPROVER_r_ok(data + g_mac_wit, 1)) { g_mac_wit_byte = data[g_mac_wit]; g_mac_wit_valid = 1; }
+#ifdef C06_SER_MAX
+	if (g_mac_wit < data_len && data_len <= 2 * C06_SER_MAX) { g_mac_wit_byte = data[g_mac_wit]; g_mac_wit_valid = 1; }
+#endif
 	g_mac_res = nondet_int();
 	if (g_mac_res == KSI_OK) {
 		KSI_DataHash *h = malloc(sizeof(KSI_DataHash));
